@@ -318,13 +318,12 @@ def otherContextByLine (cfg : Config) (σ : Script) (buf : Bytes) (st : Core) (u
 def isLineByLineFast (cfg : Config) (m : MatcherI) (st : Core) : Bool :=
   if cfg.passthru then false
   else if cfg.stopOnNonmatch && (st.hasMatched || cfg.invertMatch) then false
+  -- /repo a2e984b: never the fast searcher when the terminator byte is not `\n` (whatever the matcher reports)
+  else if cfg.lineTerm.asByte != 10 then false
   else
     let viaTerm : Option Bool :=
       match m.lineTerminator with
-      | some lineTerm =>
-        if lineTerm.asByte == 0 then some false
-        else if lineTerm == cfg.lineTerm then some true
-        else none
+      | some lineTerm => if lineTerm == cfg.lineTerm then some true else none
       | none => none
     match viaTerm with
     | some b => b
